@@ -301,7 +301,8 @@ def main(argv=None):
     if total["runs"] == 0:
         print("HARNESS-ERROR: no run completed")
         return 2
-    if hasattr(mod, "reach_failures"):
+    if not viols and hasattr(mod, "reach_failures"):
+        # a silent run that never reached the situations the check is about is not a pass
         rf = mod.reach_failures(total, tier)
         if rf:
             print("HARNESS-ERROR: reach probes stuck at zero: " + ", ".join(rf))
